@@ -110,18 +110,27 @@ else:
 
 
 def invocation(fn_name, arg_pat):
+    """identifier independent: the callee parameter is the first parameter of the function, the callee evaluator the
+    local bound to `build_evaluator(<callee parameter>)`, the callee value the local bound to `<callee evaluator>(<scope>)`"""
+    m0 = re.search(r"\bfn\s+%s\s*\(\s*(\w+)\s*:" % fn_name, mb)
     r = fn_body(builders, mb, r"\bfn\s+%s\s*\(" % fn_name)
-    if not r:
+    if not r or not m0:
         errors.append("%s not found" % fn_name)
         return {"generic": False, "special": True, "callee_first": False, "arms": ["?"]}
+    callee_param = m0.group(1)
     _, body = r
-    generic = re.search(r"let\s+function_evaluator\s*=\s*build_evaluator\s*\(\s*lhs\s*\)", body) is not None
-    special = re.search(r"Bif\s*::\s*from_str|AstNode\s*::\s*Name|if\s+let\s+AstNode", body) is not None
-    f = re.search(r"function_evaluator\s*\(\s*scope\s*\)", body)
-    g = re.search(arg_pat, body)
-    callee_first = bool(f and g and f.start() < g.start())
+    g0 = re.search(r"let\s+(\w+)\s*=\s*build_evaluator\s*\(\s*%s\s*\)" % re.escape(callee_param), body)
+    generic = g0 is not None
+    callee_ev = g0.group(1) if g0 else "?"
+    special = re.search(r"Bif\s*::\s*from_str|AstNode\s*::\s*Name|if\s+let\s+AstNode|match\s+%s\b" % re.escape(callee_param), body) is not None
+    f = re.search(r"let\s+(\w+)\s*=\s*%s\s*\(\s*(\w+)\s*\)" % re.escape(callee_ev), body) if generic else None
+    callee_val = f.group(1) if f else "?"
+    scope_var = f.group(2) if f else "scope"
+    # the first evaluation of anything else in the closure: another `<ident>(<scope>)` call
+    others = [m for m in re.finditer(r"\b(\w+)\s*\(\s*%s\s*\)" % re.escape(scope_var), body) if m.group(1) != callee_ev]
+    callee_first = bool(f and others and f.start() < min(m.start() for m in others))
     arms = []
-    m = re.search(r"match\s+function\s*\{", body)
+    m = re.search(r"match\s+%s\s*\{" % re.escape(callee_val), body) if f else None
     if m:
         blk = block_after(body, m.start())
         inner = body[blk[0] + 1:blk[1]] if blk else ""
@@ -160,8 +169,8 @@ def invocation(fn_name, arg_pat):
     return {"generic": generic, "special": special, "callee_first": callee_first, "arms": arms}
 
 
-pos = invocation("build_function_invocation_positional", r"argument_evaluators\s*\.\s*iter\s*\(")
-named = invocation("build_function_invocation_named", r"arguments_evaluator\s*\(\s*scope\s*\)")
+pos = invocation("build_function_invocation_positional", None)
+named = invocation("build_function_invocation_named", None)
 
 # ---- ForExpressionEvaluator::evaluate
 for_steps, partial_name = [], "?"
@@ -175,25 +184,34 @@ if m:
     r = fn_body(impl_src, impl_masked, r"\bfn\s+evaluate\s*\(")
     if r:
         _, body = r
-        c = re.search(r"feel_iterator\s*\.\s*run\s*\(\s*\|\s*ctx\s*\|", body)
+        c = re.search(r"feel_iterator\s*\.\s*run\s*\(\s*\|\s*(\w+)\s*\|", body)
         blk2 = block_after(body, c.end()) if c else None
+        # the accumulator: the local that the function returns as `Values::new(<acc>)`
+        accm = re.search(r"let\s+mut\s+(\w+)\s*=\s*vec!\s*\[\s*\]\s*;", body[:c.start()]) if c else None
         if blk2:
+            ctx_var = c.group(1)
+            acc = accm.group(1) if accm else "?"
+            I = r"[A-Za-z_]\w*"
+            it_ctx, it_val = None, None      # the locals, whatever they are called (data flow is checked)
             for st in top_statements(body[blk2[0] + 1:blk2[1]]):
-                flat = re.sub(r"\s+", " ", st)
-                if re.fullmatch(r"let mut iteration_context = ctx\.clone\(\);", flat):
-                    for_steps.append("clone")
-                elif re.fullmatch(r"iteration_context\.set_entry\(&self\.name_partial, Value::List\(Values::new\(results\.clone\(\)\)\)\);", flat):
+                flat = re.sub(r"\s+", "", st)          # white space carries no meaning here
+                flat = re.sub(r",\)", ")", flat)          # trailing commas of wrapped argument lists
+                m1 = re.fullmatch(r"letmut(%s)=%s\.clone\(\);" % (I, re.escape(ctx_var)), flat)
+                m4 = re.fullmatch(r"let(%s)=evaluator\((%s)\);" % (I, I), flat)
+                if m1:
+                    it_ctx = m1.group(1); for_steps.append("clone")
+                elif it_ctx and re.fullmatch(r"%s\.set_entry\(&self\.name_partial,Value::List\(Values::new\(%s\.clone\(\)\)\)\);" % (re.escape(it_ctx), re.escape(acc)), flat):
                     for_steps.append("set-partial")
-                elif re.fullmatch(r"scope\.push\(iteration_context(\.clone\(\))?\);", flat):
+                elif it_ctx and re.fullmatch(r"scope\.push\(%s(\.clone\(\))?\);" % re.escape(it_ctx), flat):
                     for_steps.append("push")
-                elif re.fullmatch(r"let iteration_value = evaluator\(scope\);", flat):
-                    for_steps.append("evaluate")
+                elif m4 and m4.group(2) == "scope":
+                    it_val = m4.group(1); for_steps.append("evaluate")
                 elif re.fullmatch(r"scope\.pop\(\);", flat):
                     for_steps.append("pop")
-                elif re.fullmatch(r"results\.push\(iteration_value\);", flat):
+                elif it_val and re.fullmatch(r"%s\.push\(%s\);" % (re.escape(acc), re.escape(it_val)), flat):
                     for_steps.append("append")
                 else:
-                    for_steps.append("other: " + flat[:40].replace('"', "'"))
+                    for_steps.append("other: " + re.sub(r"\s+", " ", st)[:40].replace('"', "'"))
         else:
             errors.append("closure of ForExpressionEvaluator::evaluate not found")
     else:
